@@ -430,13 +430,7 @@ def rule_loc(ctx):
                 why = 'a list of labels must be located by locate_many(values, val)'
                 if ok:
                     # R2: guard np.any(values[matches] != val) False on the returning path
-                    gs = [(a, pol) for a, pol in p.guards if T.contains(a, v)]
-                    good = False
-                    for a, pol in gs:
-                        for x in T.subterms(a):
-                            if x[0] == 'cmp' and x[1] == '!=' and ((x[2][0] == 'sub' and is_values(x[2][1]) and x[2][2] == v and x[3] == VAL)
-                                                                   or (x[3][0] == 'sub' and is_values(x[3][1]) and x[3][2] == v and x[2] == VAL)):
-                                good = not pol
+                    good = _found_guard(p, v, is_values, VAL)
                     if not good:
                         ctx.violated('R2', fi, 'return ' + T.show(v), "positions from the clip-mode search are returned without the "
                                      "`values[matches] != val` check: an absent label would silently select a neighbour",
@@ -483,7 +477,7 @@ def rule_loc(ctx):
         return None
     ev = run(ctx, fi, bind={'issorted': const(False)}, oracle=oracle_clip)
     for p in ret_paths(ev):
-        unguarded = not any(any(x[0] == 'cmp' and x[1] == '!=' for x in T.subterms(a)) for a, _ in p.guards)
+        unguarded = not _found_guard(p, p.value, is_values, VAL)
         if unguarded:
             m = [(a, pol) for a, pol in p.guards if T.contains(a, MODE)]
             if not (len(m) == 1 and m[0][0] == T.mkcmp('==', MODE, const('clip')) and m[0][1] is True):
@@ -491,6 +485,29 @@ def rule_loc(ctx):
                              node=p.node)
             else:
                 ctx.holds('R2', "loc: check skipped only for mode == 'clip'")
+
+
+def _found_guard(p, v, is_values, VAL):
+    """The guards of returning path p establish that every returned position v holds its label: `np.any(values[v] != val)` is False,
+    or - the same test spelled positively - `np.all(values[v] == val)` is True."""
+    def cmp_found(x, op):
+        return x[0] == 'cmp' and x[1] == op and ((x[2][0] == 'sub' and is_values(x[2][1]) and x[2][2] == v and x[3] == VAL)
+                                                 or (x[3][0] == 'sub' and is_values(x[3][1]) and x[3][2] == v and x[2] == VAL))
+    good = False
+    for a, pol in p.guards:
+        if not T.contains(a, v):
+            continue
+        red = T.call_name(a) if a[0] == 'call' else None
+        arg = (a[2][0] if a[2] else (a[1][1] if a[1][0] == 'attr' else None)) if a[0] == 'call' else None
+        if red == 'any' and arg is not None and cmp_found(arg, '!='):
+            good = not pol
+        elif red == 'all' and arg is not None and cmp_found(arg, '=='):
+            good = pol
+        elif red not in ('any', 'all'):
+            for x in T.subterms(a):
+                if cmp_found(x, '!='):
+                    good = not pol
+    return good
 
 
 # ----------------------------------------------------------------------------- R5
@@ -780,12 +797,35 @@ def rule_orthogonal_indexer(ctx, rid='R8'):
     nbad = 0
     nok = 0
 
+    class Sized(Kind):
+        # an index array that stands for a slice expanded against an axis of `size` labels
+        __slots__ = ('size',)
+
+        def __init__(self, name, size=None):
+            Kind.__init__(self, name)
+            self.size = size
+
     def ix_(args, kwargs):
         for a in args:
             if not isinstance(a, Kind):
                 raise Undecided('np.ix_ on %r' % (a,))
-        return [Kind('IX') for _ in args]
-    ext = {'canonicalize_indexer': lambda args, kw: tuple(args[0]), 'np.ix_': ix_, '_expand_slice': lambda args, kw: Kind('ARR')}
+        return [Sized('IX', getattr(a, 'size', None)) for a in args]
+
+    def expand(args, kwargs):
+        if not isinstance(args[1], int):
+            raise Undecided('slice expanded against %r' % (args[1],))
+        return Sized('ARR', args[1])
+
+    def arange(args, kwargs):
+        if len(args) == 3 and args[0] == 0 and args[2] == 1 and isinstance(args[1], int):
+            return Sized('ARR', args[1])       # np.arange(*slice.indices(size))
+        return Kind('ARR')
+    def slice_indices(args, kwargs):
+        if args[0].name not in ('SL', 'FULL'):
+            raise Raised('AttributeError')       # only slices have .indices(length)
+        return (0, args[1], 1)
+    ext = {'canonicalize_indexer': lambda args, kw: tuple(args[0]), 'np.ix_': ix_, '_expand_slice': expand, 'np.arange': arange,
+           'Kind.indices': slice_indices}
     for n in range(1, 7 if ctx.tier == 'thorough' else 5):          # thorough: key patterns up to 6 dimensions (5460 patterns)
         for pat in itertools.product(['INT', 'FULL', 'SL', 'ARR'], repeat=n):
             interp = Interp(ext, kind_types)
@@ -817,6 +857,9 @@ def rule_orthogonal_indexer(ctx, rid='R8'):
                     why = 'array index at position %d is not converted by np.ix_ although another dimension is array-indexed: NumPy would pair the arrays element-wise' % i
                 if a == 'FULL' and b not in ('FULL', 'IX'):
                     why = 'full slice changed into %s' % b
+                if a in ('SL', 'FULL') and getattr(out[i], 'size', None) not in (None, shape[i]):
+                    why = ('the slice at position %d is expanded against %d labels, its own axis has %d: slice.indices() clips against the wrong length and the '
+                           'selection differs from what the slice denotes' % (i, out[i].size, shape[i]))
             if why is None and any(k in ('IX', 'ARR') for k in res):
                 adv = [i for i, k in enumerate(res) if k in ('IX', 'ARR', 'INT')]
                 for i, k in enumerate(res):
